@@ -1,0 +1,35 @@
+//go:build verif
+// +build verif
+
+package rjson
+
+// VerifPool lets a simulator own the pool of child readers of every ValueReader, so that which pooled reader (if any)
+// serves a nested value is decided by the simulator instead of by sync.Pool and the garbage collector.
+type VerifPool interface {
+	// Get is asked for a child reader of parent. ok == false means a pool miss.
+	Get(parent *ValueReader) (child *ValueReader, ok bool)
+	// Put receives a child reader that parent is done with.
+	Put(parent, child *ValueReader)
+}
+
+var verifPool VerifPool
+
+// SetVerifPool installs p as the pool behind every ValueReader. nil restores sync.Pool.
+func SetVerifPool(p VerifPool) {
+	verifPool = p
+}
+
+func verifPoolGet(h *ValueReader, x *ValueReader, ok bool) (*ValueReader, bool) {
+	if verifPool == nil {
+		return x, ok
+	}
+	return verifPool.Get(h)
+}
+
+func verifPoolPut(h, x *ValueReader) bool {
+	if verifPool == nil {
+		return false
+	}
+	verifPool.Put(h, x)
+	return true
+}
